@@ -31,7 +31,8 @@ ASAN_ENV = {"ASAN_OPTIONS": "abort_on_error=1:detect_leaks=0:allocator_may_retur
             "UBSAN_OPTIONS": "print_stacktrace=1:halt_on_error=1"}
 VALGRIND = ["valgrind", "--quiet", "--error-exitcode=97", "--leak-check=no", "--track-origins=no", "--num-callers=12"]
 CXX = os.environ.get("VERIF_CXX", "g++")
-BASE_FLAGS = ["-std=c++17", "-w", "-pipe"]
+# no blanket -w: a generated function that returns a reference to a temporary is a defect of the generated code (g++ diagnoses it), the other warnings are only printed
+BASE_FLAGS = ["-std=c++17", "-pipe", "-Wno-unused", "-Werror=return-local-addr"]
 
 
 def cpp_gen_options(extra: dict | None = None) -> dict:
